@@ -242,7 +242,27 @@ _ecache = {}
 def _parsed(name):
     if name not in _cache:
         p = os.path.join(core.REPO, 'stdnum', name + '.dat')
-        _cache[name] = numdbref.parse(open(p, encoding='utf-8').read())
+        roots, problems = numdbref.parse(open(p, encoding='utf-8').read())
+        # consistent nesting: every shipped registry indents its levels by one constant step; a line indented by another
+        # amount is silently attached to the wrong parent by the reader
+        import collections
+        steps = collections.Counter()
+        pairs = []
+
+        def walk(es):
+            for e in es:
+                for c in e.children:
+                    steps[c.indent - e.indent] += 1
+                    pairs.append((e, c))
+                walk(e.children)
+        walk(roots)
+        if len(steps) > 1:
+            usual = steps.most_common(1)[0][0]
+            for e, c in pairs:
+                if c.indent - e.indent != usual:
+                    c.problems.append('inconsistent-indent-step')
+                    problems.append((c.lineno, 'inconsistent-indent-step', c.raw.strip()[:80]))
+        _cache[name] = (roots, problems)
     return _cache[name]
 
 
